@@ -56,6 +56,19 @@ pub fn zeroizes<T: ZElem, N: ArrayLength, const R: usize>() {
     kani_cover!(n == 0 || !a[n - 1].is_zeroized() || true);
 }
 
+/// method-call syntax on arrays of *concrete* primitive element types: what `array.zeroize()` resolves to at a caller's site (an
+/// inherent method or a more specific impl would shadow the trait impl there, and only there)
+pub fn zeroizes_concrete<T, N: ArrayLength, const R: usize>() {
+    let n = N::USIZE;
+    let i = if n > 0 { any_upto(n - 1) } else { 0 };
+    match any_upto(2) {
+        0 => { let mut a: GenericArray<u64, N> = GenericArray::generate(|_| any_u64()); a.zeroize(); assert!(n == 0 || a[i] == 0, "zeroize() skipped an element (u64, method syntax)"); }
+        1 => { let mut a: GenericArray<u16, N> = GenericArray::generate(|_| any_u16()); a.zeroize(); assert!(n == 0 || a[i] == 0, "zeroize() skipped an element (u16, method syntax)"); }
+        _ => { let mut a: GenericArray<u8, N> = GenericArray::generate(|_| any_u8()); a.as_mut_slice().zeroize(); assert!(n == 0 || a[i] == 0, "zeroize() through the slice view skipped an element"); }
+    }
+    kani_cover!(n > 0);
+}
+
 /// an element whose zeroized value depends on the element itself (`zeroize()` wipes the key and keeps the slot id, like `#[zeroize(skip)]`):
 /// "every element equals ITS zeroized value" - replicating one wiped element over the others is observable
 #[derive(Clone, Copy, PartialEq, Eq, Debug)]
@@ -152,6 +165,7 @@ pub mod q {
         u8_n0: u8, U0, 3; u8_n1: u8, U1, 4; u8_n2: u8, U2, 5; u8_n3: u8, U3, 6; u8_n4: u8, U4, 7; u8_n5: u8, U5, 8; u8_n6: u8, U6, 9; u8_n7: u8, U7, 10; u8_n8: u8, U8, 11;
         u64_n5: u64, U5, 8; b3_n3: [u8; 3], U3, 6; nested_n3: GenericArray<u8, U2>, U3, 6; zd_n0: ZD, U0, 3; zd_n5: ZD, U5, 8; zd_n6: ZD, U6, 9; flag_n1: Flagged, U1, 4; flag_n4: Flagged, U4, 7; flag_n5: Flagged, U5, 8;
     }
+    c19_lattice_z! { zeroizes_concrete; n1: (), U1, 4; n3: (), U3, 6; n5: (), U5, 8; }
     c19_lattice_z! { zeroizes_keyed; n0: (), U0, 3; n1: (), U1, 4; n2: (), U2, 5; n3: (), U3, 6; n5: (), U5, 8; n8: (), U8, 11; }
     c19_lattice! { const_defaults;
         zd_n0: ZD, U0, 3; zd_n1: ZD, U1, 4; zd_n2: ZD, U2, 5; zd_n3: ZD, U3, 6; zd_n4: ZD, U4, 7; zd_n5: ZD, U5, 8; zd_n6: ZD, U6, 9; zd_n7: ZD, U7, 10; zd_n8: ZD, U8, 11;
